@@ -49,6 +49,10 @@ Readings (where the statement is silent or ambiguous the weaker reading is used)
   Zero-width characters leading a line of which nothing else is shown before the mark may be dropped.
 * Undisplayable text (wrap any/space, width 1, a double-width character somewhere): the layout must
   be the single empty line ``[[]]`` and the canvas one blank row; the other clauses do not apply.
+* "x encodings": the active encoding is process state chosen with ``urwid.set_encoding``.  The layout must be
+  right for the encoding active at the time of the call whatever was laid out before under another one
+  (sub 'switch'); nothing is asserted about a widget that lives across a ``set_encoding`` call.
+* "all widths >= 1": sub 'big' samples widths up to 600 and lines up to 700 characters with the same clauses.
 """
 from __future__ import annotations
 
@@ -70,10 +74,21 @@ RULE = (
     "euc-jp: a b space newline 漢 あ; iso8859-1: a b space newline é ü) x width 1..8 x wrap any/space/clip/"
     "ellipsis x align left/center/right x str and encoded bytes; long: Hypothesis texts <= 60 characters made "
     "of words (1..14 letters incl. double-width and combining characters where the encoding has them), runs "
-    "of 1..4 spaces and newlines, width 1..30, same modes. Each case is one (text, width, wrap, align, "
-    "encoding, str|bytes) layout checked against the structure oracle and against Text.rows/render/pack. "
-    "Non-trivial: the text has >= 2 words or a double-width/zero-width character, and some line of it is "
-    "wider than the width (it must be wrapped or clipped)."
+    "of 1..4 spaces and newlines, width 1..30, same modes; big: Hypothesis texts <= 700 characters holding at "
+    "least one run of 40..400 repetitions of a 1..3-letter unit (double-width / zero-width letters favoured) "
+    "plus up to six more runs, words, spaces and newlines, at width 1..30, 31..600 or within 2 columns of the "
+    "longest line, same modes. Each case is one (text, width, wrap, align, encoding, str|bytes) layout checked "
+    "against the structure oracle and against Text.rows/render/pack. Non-trivial: the text has >= 2 words or a "
+    "double-width/zero-width character, and some line of it is wider than the width (it must be wrapped or "
+    "clipped); for big also width > 30 or more than 60 characters. remode: one long-lived Text driven through "
+    "its setters (sweep of every wrap/align transition per setter + Hypothesis histories of 1..6 setters), "
+    "compared with a new Text after every step. switch: histories of 2..5 such layout cases under encodings "
+    "drawn from utf-8, euc-jp, iso8859-1, gbk, ascii that run in one process state - urwid's caches are "
+    "dropped once at the start of the history and between the steps only urwid.set_encoding() is called; "
+    "every step is judged by the full oracle (sweep: every chain of three encodings whose neighbours differ "
+    "x wrap x align x width 1..6 x str/bytes; Hypothesis: texts <= 30 characters, width 1..16, steps mostly "
+    "sharing wrap/align/width). Non-trivial switch history: >= 2 distinct encodings and >= 2 steps that need "
+    "wrapping or clipping."
 )
 ASSUMPTIONS = [
     "trusted base: the wcwidth table for str / utf-8 bytes, the DBCS lead/trail rule for wide encodings, one "
@@ -82,8 +97,13 @@ ASSUMPTIONS = [
     "equals its column width (urwid's definition of wide mode); other characters are not generated",
     "bytes texts are valid encodings of such strings (the quantifier says 'encoded bytes')",
     "only StandardTextLayout (the default layout) is examined; no display attributes (C17 covers markup)",
-    "the lru_caches in urwid.text_layout depend on the encoding name / the string only, so they are cleared "
-    "by name every case and by vlib.widths.use_encoding whenever the encoding changes",
+    "a case of short/long/big/remode starts from a clean slate: the functools caches of urwid.text_layout are "
+    "cleared by name every case and by vlib.widths.use_encoding whenever the encoding changes; what urwid "
+    "carries from one layout to the next is examined by 'switch' alone, whose steps are separated by "
+    "urwid.set_encoding() and nothing else (each step builds a new Text: a widget that outlives a "
+    "set_encoding call is not examined, the statement is silent about it)",
+    "urwid.set_encoding() may be called any number of times in a process and selects the encoding for the "
+    "layouts computed afterwards (it is public, the raw display and urwid's own tests call it repeatedly)",
 ]
 
 WRAPS = ("any", "space", "clip", "ellipsis")
@@ -622,13 +642,21 @@ def row_width(row: bytes, mode: str) -> int:
     return WO.width(row, mode)
 
 
-def check_layout(case, direct=False):
-    """case: {"enc", "bytes": bool, "text": str, "width", "wrap", "align"}"""
+def check_layout(case, direct=False, keep_state=False):
+    """case: {"enc", "bytes": bool, "text": str, "width", "wrap", "align"}
+
+    keep_state (sub 'switch'): the encoding is selected the way an application does it, with the public
+    ``urwid.set_encoding`` alone, and nothing urwid has cached so far in this process is dropped."""
     enc, is_bytes, s = case["enc"], bool(case["bytes"]), case["text"]
     width, wrap, align = case["width"], case["wrap"], case["align"]
     if width < 1 or wrap not in WRAPS or align not in ALIGNS or enc not in WO.MODES:
         raise Discard()
-    mode = _set_encoding(enc)
+    if keep_state:
+        mode = WO.mode_of(enc)
+        _current[0] = None  # the next ordinary case starts from a clean slate again
+        urwid.set_encoding(enc)
+    else:
+        mode = _set_encoding(enc)
     info = tinfo(enc, is_bytes, s)
     text = info.text
     what = What(case, text)
@@ -700,6 +728,155 @@ def check_layout(case, direct=False):
 
 def check_long(case):
     check_layout(case, direct=True)
+
+
+# ---------------------------------------------------------------------------------------------
+# sub: switch   layouts in one process under changing encodings, nothing reset in between
+#
+# "For every text, width, wrap mode and alignment ... x encodings": the encoding is process-wide state that an
+# application selects with urwid.set_encoding() (public, documented; the raw display calls it, programs call it at
+# start-up and tests between cases).  A layout must be right for the encoding that is active *now*, whatever was laid
+# out before under another one.  The other subs start every case from a clean slate (every functools cache of
+# urwid.text_layout dropped), so anything urwid remembers from one layout to the next is invisible to them; a switch
+# case is a history of ordinary layout cases: the caches are dropped once, at its start (= a new process), and
+# between the steps only urwid.set_encoding() is called.  Every step builds a new Text and is judged by the full
+# oracle of check_layout.
+
+SWITCH_ENCODINGS = ("utf-8", "euc-jp", "iso8859-1", "gbk", "ascii")
+LETTERS["gbk"] = LETTERS["euc-jp"]  # all in GBK, two bytes = two columns each
+LETTERS["ascii"] = list("abcdeXYZ.,-")
+
+
+def check_switch(case):
+    """case: {"steps": [{"enc","bytes","text","width","wrap","align"}, ...]}"""
+    steps = case["steps"]
+    if not steps:
+        raise Discard()
+    for step in steps:
+        if step["enc"] not in WO.MODES:
+            raise Discard()
+        tinfo(step["enc"], bool(step["bytes"]), step["text"])  # Discard for text the encoding cannot represent
+    WO.use_encoding(steps[0]["enc"])  # a new process: nothing cached yet
+    _current[0] = None
+    seen = []
+    for k, step in enumerate(steps):
+        seen.append(step["enc"])
+        try:
+            check_layout(step, keep_state=True)
+        except Violation as v:
+            raise Violation(v.clause, f"step {k} of a history under encodings {' -> '.join(seen)}: {v.message}") from None
+
+
+def _plain_text(enc, max_word, max_tokens, max_len):
+    word = st.lists(st.sampled_from(LETTERS[enc]), min_size=1, max_size=max_word).map("".join)
+    token = st.one_of(word, st.just(" "), st.just("  "), st.just("\n"))
+    return st.lists(token, max_size=max_tokens).map(lambda toks: "".join(toks)[:max_len])
+
+
+@st.composite
+def _switch_strategy(draw):
+    # most steps share wrap mode, alignment and width (what differs between the steps is the encoding and the text)
+    base = (draw(st.sampled_from(WRAPS)), draw(st.sampled_from(ALIGNS)), draw(st.integers(1, 16)))
+    steps = []
+    for _ in range(draw(st.integers(2, 5))):
+        enc = draw(st.sampled_from(SWITCH_ENCODINGS))
+        wrap, align, width = base
+        if draw(st.integers(0, 3)) == 0:
+            wrap, align, width = draw(st.sampled_from(WRAPS)), draw(st.sampled_from(ALIGNS)), draw(st.integers(1, 16))
+        steps.append({"enc": enc, "bytes": draw(st.booleans()), "text": draw(_plain_text(enc, 8, 10, 30)),
+                      "width": width, "wrap": wrap, "align": align})
+    return {"steps": steps}
+
+
+def _wide_letter(enc):
+    return next((c for c in LETTERS[enc] if WO.char_width(c) == 2), LETTERS[enc][-1])
+
+
+def switch_sweep():
+    """every chain of three encodings (neighbours differ) x wrap x align x width 1..6 x str/bytes, each step laying out
+    the same kind of text (two double-width letters where the encoding has them) that has to be wrapped or cut"""
+    for e1 in SWITCH_ENCODINGS:
+        for e2 in SWITCH_ENCODINGS:
+            for e3 in SWITCH_ENCODINGS:
+                if e1 == e2 or e2 == e3:
+                    continue
+                for wrap in WRAPS:
+                    for align in ALIGNS:
+                        for width in range(1, 7):
+                            for is_bytes in (False, True):
+                                yield {"steps": [
+                                    {"enc": e, "bytes": is_bytes, "text": "ab cd " + _wide_letter(e) * 2 + " efg\nh",
+                                     "width": width, "wrap": wrap, "align": align} for e in (e1, e2, e3)]}
+
+
+def switch_nontrivial(case):
+    """at least two different encodings, and at least two steps that need wrapping or cutting"""
+    steps = case["steps"]
+    return len({s["enc"] for s in steps}) >= 2 and sum(1 for s in steps if is_nontrivial(s)) >= 2
+
+
+def switch_classify(case):
+    steps = case["steps"]
+    out = [f"switch:{len(steps)}-steps"]
+    modes = [WO.mode_of(s["enc"]) for s in steps]
+    out.extend(sorted({f"switch:{a}->{b}" for a, b in zip(modes, modes[1:]) if a != b}))
+    return out
+
+
+# ---------------------------------------------------------------------------------------------
+# sub: big   the same oracle on long lines and wide screens
+#
+# The quantifier is "all widths >= 1" and puts no bound on the text.  'short' and 'long' stay below 31 columns and
+# 61 characters; this sub adds a sparse sample of what a real wide terminal or a long log line brings: lines of up to
+# ~700 characters built from long runs of one repeated unit (a letter, a double-width or zero-width letter, or 2-3
+# letters), ordinary words, spaces and newlines, at a small width (many rows / a far-away clip window), a width of
+# 31..600, or a width within 2 columns of one of the text's own line widths.
+
+
+@st.composite
+def _big_strategy(draw):
+    enc = draw(st.sampled_from(ENCODINGS))
+    letters = LETTERS[enc]
+    special = [c for c in letters if WO.char_width(c) != 1] or letters
+    unit = st.one_of(
+        st.sampled_from(letters),
+        st.sampled_from(special),
+        st.lists(st.sampled_from(letters), min_size=2, max_size=3).map("".join),
+    )
+    run = st.tuples(unit, st.integers(40, 400)).map(lambda t: (t[0] * t[1])[:400])
+    word = st.lists(st.sampled_from(letters), min_size=1, max_size=14).map("".join)
+    spaces = st.integers(1, 4).map(lambda k: " " * k)
+    token = st.one_of(run, word, word, spaces, spaces, st.just("\n"))
+    # at least one long run, with up to three other tokens on either side of it
+    parts = draw(st.lists(token, max_size=3)) + [draw(run)] + draw(st.lists(token, max_size=3))
+    text = "".join(parts)[:700]
+    kind = draw(st.integers(0, 7))
+    if kind < 2:
+        width = draw(st.integers(1, 30))
+    elif kind < 5:
+        width = draw(st.integers(31, 600))
+    else:
+        # within 2 columns of the text's longest line (wide mode: encoded length == columns by construction)
+        width = max(1, max(sum(WO.char_width(c) for c in line) for line in text.split("\n")) + draw(st.integers(-2, 2)))
+    return {"enc": enc, "bytes": draw(st.booleans()), "text": text, "width": width,
+            "wrap": draw(st.sampled_from(WRAPS)), "align": draw(st.sampled_from(ALIGNS))}
+
+
+def big_nontrivial(case):
+    """beyond the bounds of 'short'/'long' (width > 30 or more than 60 characters) and needs wrapping or cutting"""
+    return (case["width"] > 30 or len(case["text"]) > 60) and is_nontrivial(case)
+
+
+def big_classify(case):
+    out = classify(case)
+    w = case["width"]
+    out.append("big:width " + ("1..30" if w <= 30 else "31..199" if w < 200 else "200..399" if w < 400 else ">=400"))
+    try:
+        info = tinfo(case["enc"], bool(case["bytes"]), case["text"])
+    except Discard:
+        return out
+    out.append("big:longest line " + ("<=60" if info.max_pw <= 60 else "61..256" if info.max_pw <= 256 else ">256") + " columns")
+    return out
 
 
 # ---------------------------------------------------------------------------------------------
@@ -789,7 +966,7 @@ def remode_sweep():
                                    "steps": [[setter, text, w1, a1]]}
 
 
-SUBS = {"short": check_layout, "long": check_long, "remode": check_remode}
+SUBS = {"short": check_layout, "long": check_long, "remode": check_remode, "switch": check_switch, "big": check_layout}
 
 
 # ---------------------------------------------------------------------------------------------
@@ -869,23 +1046,33 @@ def _long_strategy():
 
 def shard(ctx):
     STATS.clear()
+    # the cheap campaigns first (a few CPU seconds together), the exhaustive enumeration - most of the cost - last:
+    # on an overloaded machine the wall-clock cap then cuts the tail of the enumeration, not whole campaigns
+    ctx.sweep("remode", remode_sweep(), nontrivial=lambda c: True, classify=lambda c: ["remode:sweep"],
+              exhaustive_name="every wrap/align transition through each setter on a long-lived Text")
+    if ctx.failure is None:
+        ctx.given("remode", _remode_strategy(), ctx.scale(300, 6000), nontrivial=lambda c: len(c["steps"]) >= 2,
+                  classify=lambda c: ["remode:" + s[0] for s in c["steps"]])
+    if ctx.failure is None:
+        ctx.sweep("switch", switch_sweep(), nontrivial=switch_nontrivial, classify=switch_classify,
+                  exhaustive_name="every chain of three encodings (utf-8, euc-jp, iso8859-1, gbk, ascii; neighbours differ) x "
+                                  "wrap x align x width 1..6 x str/bytes laid out with only urwid.set_encoding in between")
+    if ctx.failure is None:
+        ctx.given("switch", _switch_strategy(), ctx.scale(250, 5000), nontrivial=switch_nontrivial, classify=switch_classify)
+    if ctx.failure is None:
+        ctx.given("big", _big_strategy(), ctx.scale(400, 6000), nontrivial=big_nontrivial, classify=big_classify)
+    if ctx.failure is None:
+        ctx.given("long", _long_strategy(), ctx.scale(1500, 30000), nontrivial=is_nontrivial, classify=classify)
     widths = range(1, 9)
     maxlen = ctx.scale(5, 6)
-    ctx.sweep("short", short_cases(ctx, ENCODINGS, maxlen, widths), nontrivial=is_nontrivial, classify=classify,
-              exhaustive_name=f"all strings of length <= {maxlen} x width 1..8 x wrap x align (quick: one rotating alignment for the longest strings) x str/bytes x 3 encodings",
-              stride=False)
+    if ctx.failure is None:
+        ctx.sweep("short", short_cases(ctx, ENCODINGS, maxlen, widths), nontrivial=is_nontrivial, classify=classify,
+                  exhaustive_name=f"all strings of length <= {maxlen} x width 1..8 x wrap x align (quick: one rotating alignment for the longest strings) x str/bytes x 3 encodings",
+                  stride=False)
     if ctx.failure is None and ctx.tier == "thorough":
         ctx.sweep("short", short_cases(ctx, ("utf-8",), 7, range(1, 5), kinds=(False,), minlen=7),
                   nontrivial=is_nontrivial, classify=classify,
                   exhaustive_name="utf-8 str strings of length 7 x width 1..4 x wrap x align", stride=False)
-    if ctx.failure is None:
-        ctx.given("long", _long_strategy(), ctx.scale(1500, 30000), nontrivial=is_nontrivial, classify=classify)
-    if ctx.failure is None:
-        ctx.sweep("remode", remode_sweep(), nontrivial=lambda c: True, classify=lambda c: ["remode:sweep"],
-                  exhaustive_name="every wrap/align transition through each setter on a long-lived Text")
-    if ctx.failure is None:
-        ctx.given("remode", _remode_strategy(), ctx.scale(300, 6000), nontrivial=lambda c: len(c["steps"]) >= 2,
-                  classify=lambda c: ["remode:" + s[0] for s in c["steps"]])
     for k, v in sorted(STATS.items()):
         ctx.count(k, v)
 
@@ -900,7 +1087,7 @@ def _known_zero_column_text_segment(sub, case, v):
     itself produced: either empty (offs == end: LayoutSegment.subseg cut a double-width character and no whole
     character is left; clip/ellipsis) or made only of zero-width characters (a line solely of zero-width
     characters in clip/ellipsis/space)."""
-    if v.clause != "exception:ValueError@text_layout.py:__init__":
+    if "enc" not in case or v.clause != "exception:ValueError@text_layout.py:__init__":
         return False
     m = re.fullmatch(r"ValueError: \(0, (\d+), (\d+)\)", v.message)
     if not m:
@@ -916,6 +1103,8 @@ def _known_zero_column_text_segment(sub, case, v):
 
 
 def _ellipsis_cuts(case):
+    if "enc" not in case:
+        return False  # remode / switch histories
     info = tinfo(case["enc"], bool(case["bytes"]), case["text"])
     return case["wrap"] == "ellipsis" and info.max_pw > case["width"]
 
@@ -923,7 +1112,7 @@ def _ellipsis_cuts(case):
 def _known_ellipsis_mark_wide_encoding(sub, case, v):
     """_calculate_trimmed_segments measures the mark as a str ('…' = 1 column by the Unicode table) but emits it
     encoded; in a wide encoding that has '…' (euc-jp: A1 C4) the two bytes are 2 columns."""
-    enc = case["enc"]
+    enc = case.get("enc", "ascii")
     return (
         v.clause == "segment-width"
         and "inserted text" in v.message
@@ -942,7 +1131,7 @@ def _known_ellipsis_width_hardcoded(sub, case, v):
     return (
         v.clause == "segment-width"
         and "inserted text" not in v.message
-        and ellipsis_mark(case["enc"]) == "..."
+        and ellipsis_mark(case.get("enc", "utf-8")) == "..."
         and case["width"] >= 3
         and _ellipsis_cuts(case)
     )
